@@ -41,6 +41,7 @@ type Op struct {
 	NilCtx   bool     `json:"nil_ctx,omitempty"`    // WithMassive(nil)
 	NilOption bool    `json:"nil_option,omitempty"` // a nil Option among the options
 	EmptyTarget bool  `json:"empty_target,omitempty"` // WithTargetDir("") is passed: documented to mean the current directory
+	SlashTarget bool  `json:"slash_target,omitempty"` // WithTargetDir("/") is passed: the root directory (outside the jail: refused)
 	Decoys   bool     `json:"decoys,omitempty"`       // every option is preceded by the same option with another value: the last one wins
 	BranchOnly string `json:"branch_only,omitempty"`  // "last" | "mid": only that one of the two branch-format options is passed
 }
@@ -76,6 +77,18 @@ func (o Op) String() string {
 	}
 	if len(o.Exts) > 0 {
 		s += "/exts=" + strings.Join(o.Exts, ",")
+	}
+	if o.Decoys {
+		s += "/every-option-twice"
+	}
+	if o.NilOption {
+		s += "/nil-option"
+	}
+	if o.EmptyTarget {
+		s += "/target-dir-empty-string"
+	}
+	if o.SlashTarget {
+		s += "/target-dir-slash"
 	}
 	return s
 }
@@ -279,6 +292,8 @@ func opOptions(op Op, ctx context.Context, target string) []gtree.Option {
 	}
 	if op.EmptyTarget {
 		opts = append(opts, gtree.WithTargetDir(""))
+	} else if op.SlashTarget {
+		opts = append(opts, gtree.WithTargetDir("/"))
 	} else if target != "" {
 		opts = append(opts, gtree.WithTargetDir(target))
 	}
